@@ -68,6 +68,12 @@ func (s *Satisfaction) MethodParameters() interface{} {
 func (s *Satisfaction) ParseParams(dm *model.DecisionMaker) interface{} {
 	var params SatisfactionParameters
 	utils.DecodeToStruct(dm.MethodParameters, &params)
+	// thresholds / series parameters are checked against the declared criteria before any bias can remove one
+	// (on a throw-away instance, Evaluate builds its own)
+	satisfaction_levels.Find(params.Function, params.Params, s.functions).Initialize(&model.DecisionMakingParams{
+		Criteria:                  dm.Criteria,
+		NotConsideredAlternatives: dm.KnownAlternatives,
+	})
 	return params
 }
 
